@@ -47,16 +47,39 @@ RULE = ('(a) every supported protocol version x compression {off, 0, 256} x '
         'with the login, as one burst after the client went idle (held), '
         'and one event per quiescence.  (c2) m queued chat packets from the '
         'user (m around the 50 / 300 batch limits) followed by n keep-alives '
-        'and a disconnect.  Non-trivial = the history contains at least one '
+        'and a disconnect.  (d) the ONLY family in which the environment '
+        'fails writes (vnet send_after_close = ok_once and raise; the plain '
+        'RefServer that really closes after its disconnect packet): on '
+        'versions 47/340/757 x compression {off, 256}, once the client is '
+        'idle the server sends in one burst 49 unknown-id frames and one '
+        'keep-alive (at index 49, 0 or 24 of the 50) and then its disconnect '
+        'packet, and closes.  The shape is fixed because only there is the '
+        'clean ending owed by the code as written: the 50-read quota ends '
+        'the lap with exactly one reply queued, the next lap writes it to '
+        'the dead peer (a failure is remembered), then reads the disconnect '
+        'packet, which forgives the remembered failure, and disconnect() '
+        'finds an empty queue.  Judged there: exit callback once, no error '
+        'reported, connection closed, thread ended, deliveries intact; the '
+        'reply itself may be lost.  Neighbouring shapes (48 or 50 unknown '
+        'frames, two keep-alives) are run as observations only and recorded '
+        'as outcome classes: there the flush inside disconnect() meets the '
+        'dead peer and the unchanged library reports the fault (DESIGN.md '
+        '9.3).  Non-trivial = the history contains at least one '
         'event; distinct = distinct (version, compression, delivery, '
         'history).  states = distinct abstractions (version, compression, '
         'spawned, reactor, queued replies, thread state, connected, exits, '
         'numbers of replies by kind) observed at idle/closed points; '
         'transitions = server events delivered; traces = executions.')
 ASSUMPTIONS = [
-    'the environment does not fail writes: the server keeps reading after '
-    'its disconnect packet (half-close), so the race in which a reply is '
-    'written to an already reset socket is outside this property',
+    'families (a)-(c2): the environment does not fail writes: the server '
+    'keeps reading after its disconnect packet (half-close), so that the '
+    'independent decoder sees every reply',
+    'family (d) is the only place where send faults are injected (write to '
+    'a peer that has closed: first send call accepted and the next refused, '
+    'or refused at once); its shape '
+    'is fixed to the one in which the library as written owes a clean '
+    'ending; whether a write fault during the flush of disconnect() should '
+    'be forgiven too is not decided here (observation only)',
     'ids of development snapshots and the publication order of protocol '
     'numbers (KNOWN_PROTOCOL_VERSIONS) are taken from the tree under test; '
     'bytes are always encoded/decoded by vf.refproto',
@@ -142,6 +165,8 @@ def _snap(W, conn, srv, exits, errs):
         'state': srv.state,
         'compressed_frames': sum(1 for f in srv.frames
                                  if f[0] == 'play' and f[4]),
+        'send_fails': sum(1 for e in S.log if e and e[0] == 'send-fail'),
+        'sent_after_end': c.sent_after_end,
     }
 
 
@@ -155,7 +180,9 @@ def body(W, sc):
         script = events + ([DISC] if term else [])
 
     def factory(conn):
-        srv = Srv(conn, protoids.ids, W.rank, login=login, play_script=script)
+        # family (d) uses the plain RefServer: its disconnect really closes
+        cls = RefServer if mode == 'fault' else Srv
+        srv = cls(conn, protoids.ids, W.rank, login=login, play_script=script)
         W.servers.append(srv)
         return srv
     W.net.listen('srv', 25565, factory)
@@ -201,6 +228,11 @@ def body(W, sc):
             if term:
                 srv.play(DISC)
             W.settle()
+        elif mode == 'fault':       # one burst, then the server is gone
+            for ev in events:
+                srv.play(ev)
+            srv.play(DISC)
+            W.settle()
         if mode in ('step', 'late') and term:
             mid = _snap(W, conn, srv, exits, errs)
             srv.play(DISC)
@@ -218,7 +250,8 @@ def body(W, sc):
 
 def execute(sc):
     x = harness.run(lambda W: body(W, sc), hold=(sc['mode'] == 'held'),
-                    horizon=HORIZON, send_after_close='ok')
+                    horizon=HORIZON,
+                    send_after_close=sc.get('env') or 'ok')
     if x.failure is not None:
         return {'failure': x.failure}
     return x.result
@@ -322,8 +355,10 @@ def _judge_idle(snap, exp_replies, exp_chats, exp_spawn, where, out):
                     'without being told to' % where))
 
 
-def _judge_closed(snap, exp_replies, exp_chats, exp_spawn, where, out):
-    _judge_replies(snap, exp_replies, exp_chats, where, out)
+def _judge_closed(snap, exp_replies, exp_chats, exp_spawn, where, out,
+                  replies=True):
+    if replies:
+        _judge_replies(snap, exp_replies, exp_chats, where, out)
     if snap['spawned'] is not exp_spawn:
         out.append(('spawned', '%s: conn.spawned is %r, expected %r'
                     % (where, snap['spawned'], exp_spawn)))
@@ -372,8 +407,10 @@ def judge(rank, sc, obs):
         _judge_idle(obs['mid'], exp_replies, exp_chats, exp_spawn,
                     'idle after the history, before the disconnect', out)
     if sc['term']:
+        # family (d): the server is gone, the reply itself may be lost
         _judge_closed(end, exp_replies, exp_chats, exp_spawn,
-                      'after the disconnect', out)
+                      'after the disconnect', out,
+                      replies=(sc['mode'] != 'fault'))
     else:
         _judge_idle(end, exp_replies, exp_chats, exp_spawn,
                     'idle after the history', out)
@@ -463,6 +500,23 @@ def run_scenario(ctx, sc, family):
     if events or sc.get('prequeue'):
         ctx.note_distinct(1)
     verdicts = judge(rank, sc, obs)
+    if not sc.get('judged', True):
+        # documented observation (DESIGN.md 9.3): with these shapes the
+        # unchanged tree itself reports the write fault; recorded only
+        ctx.outcome('d observed [%s] env=%s: %s' % (
+            sc.get('shape'), sc.get('env'),
+            'clean' if not verdicts else
+            '+'.join(sorted(set(k for k, _ in verdicts)))))
+        verdicts = []
+    if 'end' in obs and sc['mode'] == 'fault':
+        end = obs['end']
+        if sc.get('judged', True):
+            # (ok_once: the length prefix of the reply frame is accepted,
+            # the send of its body fails; raise: the first send fails)
+            if end['send_fails'] and not end['errs']:
+                ctx.cls('d: write fault forgiven by the disconnect packet '
+                        '(%s)' % sc.get('env'))
+            ctx.cls('d: judged, environment answer %s' % sc.get('env'))
     if 'end' in obs:
         end = obs['end']
         ctx.state(_state_of(sc, end))
@@ -495,9 +549,10 @@ def run_scenario(ctx, sc, family):
     for kind, what in verdicts:
         ctx.violation(
             '%s: %s v=%d' % (family, kind, sc['v']),
-            'protocol %d, compression %s, delivery %s, history [%s]: %s'
+            'protocol %d, compression %s, delivery %s%s, history [%s]: %s'
             % (sc['v'], 'off' if sc['comp'] is None else sc['comp'],
-               sc['mode'], _hist_text(sc), what),
+               sc['mode'], (' (send to the closed peer: %s)' % sc['env'])
+               if sc.get('env') else '', _hist_text(sc), what),
             dict(sc, family=family))
     return obs
 
@@ -683,6 +738,49 @@ def w_family_q(ctx, task):
         ctx.cls('c2: user queue reaches the 300-write batch limit')
 
 
+D_VERSIONS = (47, 340, 757)
+D_ENVS = ('ok_once', 'raise')
+D_UNKNOWN = (U1, U0, UM)
+
+
+def d_events(n_unknown, ka_positions):
+    """n_unknown unknown-id frames with keep-alives inserted so that they
+    end up at the given indices of the resulting sequence."""
+    total = n_unknown + len(ka_positions)
+    out, u = [], 0
+    for i in range(total):
+        if i in ka_positions:
+            out.append(('keepalive', 1000 + i))
+        else:
+            out.append(D_UNKNOWN[u % len(D_UNKNOWN)])
+            u += 1
+    return out
+
+
+def d_cases():
+    """(shape text, events, judged).  Judged: 49 unknown frames and ONE
+    keep-alive = exactly the 50 packets of one read lap, so that exactly one
+    reply is queued when the quota is hit and the disconnect packet is read
+    in the lap whose write phase met the dead peer."""
+    out = []
+    for pos in (49, 0, 24):
+        out.append(('49 unknown + keep-alive at %d' % pos,
+                    d_events(49, (pos,)), True))
+    out.append(('48 unknown + keep-alive', d_events(48, (48,)), False))
+    out.append(('50 unknown + keep-alive', d_events(50, (50,)), False))
+    out.append(('48 unknown + 2 keep-alives', d_events(48, (48, 49)), False))
+    return out
+
+
+def w_family_d(ctx, task):
+    v, comp, env = task
+    _check_alphabet(v)
+    for shape, events, judged in d_cases():
+        sc = {'v': v, 'comp': comp, 'mode': 'fault', 'events': events,
+              'term': True, 'env': env, 'judged': judged, 'shape': shape}
+        run_scenario(ctx, sc, 'd')
+
+
 def _chunks(seq, n):
     seq = list(seq)
     return [seq[i:i + n] for i in range(0, len(seq), n)]
@@ -743,6 +841,10 @@ def run(ctx):
     tasks = [(v, comp, m, n) for v in Q_VERSIONS if v in sup
              for comp in (None, 0) for m in ms for n in (0, 3, 60)]
     ctx.pmap(w_family_q, _permute(tasks, seed))
+    # (d) the only family with send faults
+    tasks = [(v, comp, env) for v in D_VERSIONS if v in sup
+             for comp in (None, 256) for env in D_ENVS]
+    ctx.pmap(w_family_d, _permute(tasks, seed))
     ctx.sample({'family': 'a', 'history': 'position-and-look then '
                 'keep-alive(3)', 'versions': len(sup), 'compression': 'off/0/256'})
     ctx.sample({'family': 'b', 'versions': bvs, 'max_length': maxlen,
@@ -752,7 +854,9 @@ def run(ctx):
                 'delivery': ['burst', 'held', 'step']})
     # vacuity guards
     need = ['family a', 'family b', 'family b2', 'family b3', 'family c',
-            'family c2',
+            'family c2', 'family d',
+            'd: write fault forgiven by the disconnect packet (ok_once)',
+            'd: write fault forgiven by the disconnect packet (raise)',
             'layout varint/echo', 'layout varint/confirm',
             'layout long/confirm', 'runs with reply kind keepalive',
             'runs with reply kind teleport_confirm',
@@ -789,4 +893,7 @@ def replay(ctx, case):
           'events': [tuple(e) for e in case['events']], 'term': case['term']}
     if case.get('prequeue'):
         sc['prequeue'] = case['prequeue']
+    for k in ('env', 'judged', 'shape'):
+        if case.get(k) is not None:
+            sc[k] = case[k]
     run_scenario(ctx, sc, family)
